@@ -37,7 +37,7 @@ Print Assumptions C09_positions.
 Theorem C09_use_before_definition : forall T rd rec fuel st buf t math,
   assoc (txt t) (macros st) = None ->
   exists st',
-    expand_macro T rd rec fuel st buf t math = Ok (st', ([ActionT (pos t)], skip_space buf)) /\
+    expand_macro T rd rec fuel st buf t math = Ok (st', ([ActionT (pos t)], skip_ctl buf)) /\
     unknowns st' = (if math then unknowns st else add_unknown (unknowns st) (txt t)) /\
     macros st' = macros st /\ environs st' = environs st.
 Proof. exact expand_macro_undeclared. Qed.
